@@ -95,6 +95,7 @@ type recT struct {
 
 type pools struct {
 	gate     *rig.ListGate
+	getGate  *rig.ListGate
 	shared   *rig.SharedState
 	normal   []*rig.Rig
 	follower []*rig.Rig
@@ -443,6 +444,11 @@ func runEpisode(p *pools, e *episodeT, res *hx.Result) (*recT, error) {
 		}
 		sort.Strings(ev.Peers)
 		p.gate.Arm(readers)
+		// line up the PinGet of concurrent Unpin calls (if more than one peer goes for the same expired pin,
+		// all of them have read it before any LogUnpin); with one peer per pin this just waits out the deadline
+		if readers > 1 {
+			p.getGate.Arm(readers)
+		}
 		errs := make(chan error, len(order))
 		for _, m := range order {
 			go func(m string) {
@@ -458,6 +464,7 @@ func runEpisode(p *pools, e *episodeT, res *hx.Result) (*recT, error) {
 		}
 		ev.Gate = p.gate.Arrived()
 		p.gate.Disarm()
+		p.getGate.Disarm()
 		ev.Ps2 = pins()
 		ev.Members2 = members()
 		splitAll(&ev)
@@ -542,6 +549,8 @@ func TestDriver(t *testing.T) {
 	}
 	p := &pools{shared: rig.NewSharedState(), rng: rand.New(rand.NewSource(hx.Seed()))}
 	p.gate = p.shared.GateLists()
+	p.getGate = p.shared.GateGets()
+	p.getGate.Deadline = 250 * time.Millisecond
 	defer p.close()
 	outf, err := os.Create(os.Getenv("VERIF_TRACE"))
 	if err != nil {
